@@ -493,7 +493,11 @@ def model_export_to_file(f, model=None, repo=None):
 
                     if type(attr_value) in PRIMITIVE_PYTHON_TYPES:
                         if attr_name == "name":
-                            name = attr_value
+                            name = (
+                                dot_escape(attr_value)
+                                if isinstance(attr_value, str)
+                                else attr_value
+                            )
                         else:
                             attrs += (
                                 f"{required}{attr_name}:"
